@@ -399,3 +399,116 @@ def flatten_types(ti: int, fi: int, cast_value: int) -> bool:
     post: _
     """
     return done(fast.native(_flatten, fast.pick(ti, len(TYPES)), fast.pick(fi, len(FLAT_INPUT)), fast.pick(cast_value, 4)))
+
+
+# ------------------------------------------------------------------ rewrites compose when nested (shared machinery, also used by C10)
+def _strip_parens(e: exp.Expression) -> exp.Expression:
+    e = e.copy()
+    for p in list(e.find_all(exp.Paren)):
+        if p is e:
+            return _strip_parens(p.this)
+        p.replace(p.this)
+    # CAST(CAST(x AS T) AS T) == CAST(x AS T): a rewrite may leave out a cast that is already there
+    for c in list(e.find_all(exp.Cast)):
+        inner = c.this
+        if type(inner) is type(c) and inner.to == c.to:
+            c.set("this", inner.this)
+    return e
+
+
+def _projection(sql: str) -> exp.Expression:
+    t = emitted(sql).expressions[0]
+    return t.this if isinstance(t, exp.Alias) else t
+
+
+def nested_composes(outer: str, inner: str):
+    """The SQL reaching the engine for outer(inner(s)) is outer's rewrite with inner's rewrite in the argument position (read back from the
+    emitted text, so operator precedence counts), modulo parentheses and a repeated identical cast."""
+    arg = inner.format(a="s")
+    e_in = _projection(f"select {arg} as r from t")
+    e_out = _projection(f"select {outer.format(a='zz9')} as r from t")
+    e_nest = _projection(f"select {outer.format(a=arg)} as r from t")
+    want = e_out.copy()
+    hit = 0
+    for c in list(want.find_all(exp.Column)):
+        if c.name.upper() == "ZZ9":
+            hit += 1
+            if c is want:
+                want = e_in.copy()
+            else:
+                c.replace(e_in.copy())
+    # structural comparison of the trees (the generator does not parenthesise every operand, so equal text need not mean equal trees)
+    wt, gt = _strip_parens(want), _strip_parens(e_nest)
+    return hit >= 1 and wt == gt, repr(wt), repr(gt)
+
+
+JSON_FORMS = [
+    "parse_json({a})",
+    "try_parse_json({a})",
+    "cast(get_path(parse_json({a}), 's') as varchar)",
+    "object_construct('k', {a}, 'n', null)",
+    "array_size({a})",
+    "to_variant({a})",
+    "array_construct({a}, 1)",
+    "array_contains(cast({a} as variant), array_construct(1))",
+    "cast(parse_json({a}):k as int)",
+    "cast({a} as object)",
+    "cast(parse_json({a}):k.j[0] as float)",
+    "upper(parse_json({a}):k)",
+    "cast(parse_json({a})['k'] as varchar)",
+    "({a}) || 'z'",
+    "cast({a}:p as varchar)",
+    "trim({a})",
+    "coalesce({a}, 'q')",
+]
+# self-nesting that is broken on the pinned tree (listed finding): the inner call of the SAME function is not rewritten
+JSON_SELF_NESTING_FINDING = {"object_construct('k', {a}, 'n', null)", "array_size({a})", "trim({a})", "cast(parse_json({a})['k'] as varchar)"}
+
+
+def _json_nest(oi: int, ii: int) -> bool:
+    outer, inner = JSON_FORMS[oi], JSON_FORMS[ii]
+    if outer == inner and outer in JSON_SELF_NESTING_FINDING:
+        return True
+    if "{a}:p" in outer and ("||" in inner):
+        return True  # a path applied to a concatenation is not a meaningful form
+    ok, _a, _b = nested_composes(outer, inner)
+    return ok
+
+
+@ob(
+    "C11.semi_structured_rewrites_compose_when_nested",
+    encodes=["fakesnow.cursor.FakeSnowflakeCursor._transform (all transforms, in order; sqlglot Expression.transform does not revisit replaced nodes)", "fakesnow.transforms.json_extract_cast_as_varchar / object_construct / array_size / parse_json / indices_to_json_extract / to_variant"],
+    bounds=f"{len(JSON_FORMS)} x {len(JSON_FORMS)} (outer, inner) pairs of semi-structured forms (PARSE_JSON, TRY_PARSE_JSON, GET_PATH, OBJECT_CONSTRUCT with a NULL pair, ARRAY_SIZE, "
+    "TO_VARIANT, ARRAY_CONSTRUCT, ARRAY_CONTAINS, casts of colon / bracket paths at depth 1..3, UPPER of a path, concatenation): the engine SQL of "
+    "outer(inner(s)) is outer's rewrite applied to inner's rewrite - at any depth the inner form is rewritten too (double-encoded JSON, nested casts of extractions)",
+    timeout=(300, 600),
+    carve="C11-same-function-nested-not-rewritten, C11-nested-bracket-access",
+)
+def json_nesting(oi: int, ii: int) -> bool:
+    """
+    pre: 0 <= oi < len(JSON_FORMS) and 0 <= ii < len(JSON_FORMS)
+    post: _
+    """
+    return done(fast.native(_json_nest, fast.pick(oi, len(JSON_FORMS)), fast.pick(ii, len(JSON_FORMS))))
+
+
+def _real_json_nesting(a: dict):
+    """Real DuckDB: double-encoded JSON navigated twice, and nested forms evaluate like their parts evaluated one after the other."""
+    from vf.real import real_cursor
+
+    outer, inner = JSON_FORMS[a["oi"]], JSON_FORMS[a["ii"]]
+    fs, conn, cur = real_cursor(False)
+    doc = '{"p": "{\\\\"k\\\\": 7, \\\\"s\\\\": \\\\"x y\\\\"}", "k": {"j": [1.5]}, "s": "t"}'
+    try:
+        cur.execute("create table t (s variant)")
+        cur.execute(f"insert into t select parse_json('{doc}')")
+        step = cur.execute(f"select {inner.format(a='s')} from t").fetchall()
+        nested = cur.execute(f"select {outer.format(a=inner.format(a='s'))} from t").fetchall()
+        cur.execute("create table t_step as select " + inner.format(a="s") + " as zz9 from t")
+        two = cur.execute(f"select {outer.format(a='zz9')} from t_step").fetchall()
+    except Exception as e:  # noqa: BLE001
+        return None, f"real stack: {type(e).__name__}: {str(e)[:160]}"
+    return nested != two, f"real stack: inner -> {step}; nested -> {nested}; outer over the stored inner result -> {two}"
+
+
+REGISTRY["C11.semi_structured_rewrites_compose_when_nested"].real_replay = _real_json_nesting
